@@ -191,9 +191,12 @@ def rule_errdisc(ctx):
         # float(x) is normalised away in terms; find it syntactically
         import ast
 
-        for n in ast.walk(f.node):
-            if isinstance(n, ast.Call) and isinstance(n.func, ast.Name) and n.func.id == "float" and n.args:
-                convs.append(("float()", n))
+        # ... in the function and in the helpers that were evaluated in place
+        fnodes = [f.node] + [ctx.program.func(h).node for h in sorted(set(s.inlined)) if ctx.program.has_func(h)]
+        for fn_ in fnodes:
+            for n in ast.walk(fn_):
+                if isinstance(n, ast.Call) and isinstance(n.func, ast.Name) and n.func.id == "float" and n.args:
+                    convs.append(("float()", n))
         seen = set()
         k = 0
         for kind, c in convs:
@@ -201,7 +204,7 @@ def rule_errdisc(ctx):
             if id(node) in seen:
                 continue
             seen.add(id(node))
-            tryinfo = _enclosing_try(f.node, node)
+            tryinfo = _enclosing_try(fnodes, node)
             good = False
             why = "conversion outside any try"
             if tryinfo is not None:
@@ -220,7 +223,7 @@ def rule_errdisc(ctx):
         for sb in s.by_kind("subscript"):
             if sb.index.op == "const" and isinstance(sb.index.a[0], float) and sb.index.a[0] != 0 and sb.base.op == "call" and call_name(sb.base) == ".split":
                 # (field 0 of a split always exists; only later fields can be missing)
-                tryinfo = _enclosing_try(f.node, sb.node)
+                tryinfo = _enclosing_try(fnodes, sb.node)
                 counted = any(c.op == "cmp" and any(x is sb.base for x in tm.walk(c)) for c, _ in symeval.pc_conds(sb.pc))
                 good = counted
                 if tryinfo is not None:
@@ -246,12 +249,13 @@ def _enclosing_try(fnode, target):
     import ast
 
     best = None
-    for n in ast.walk(fnode):
-        if isinstance(n, ast.Try):
-            for st in n.body:
-                for x in ast.walk(st):
-                    if x is target:
-                        best = n
+    for fn_ in fnode if isinstance(fnode, list) else [fnode]:
+        for n in ast.walk(fn_):
+            if isinstance(n, ast.Try):
+                for st in n.body:
+                    for x in ast.walk(st):
+                        if x is target:
+                            best = n
     return best
 
 
